@@ -581,6 +581,50 @@ def zHalf : Half K := ⟨0, 0, 0, 0, 0, 0⟩
 omit [Zero K] in
 theorem mkRec_parts (r : Rec12 K) : mkRec (part1 r) (part2 r) = r := by cases r; rfl
 
+/-! #### the regenerated sites of `GamaLocalDeformation::init()` (round 5)
+
+`put1`, `put2`, `t1Of`, `t2Of` (Model/Consumers.lean) interpret the tables that tools/gen/c12_deform.py
+regenerates from deformation.cpp.  The four closed forms below are everything the rest of this file knows
+about those tables; they are proved by evaluating the interpreter on the GENERATED text, so a changed
+member or epoch at any of the 12 assignments / 2 guards / 6 `push_back`s makes the corresponding proof fail
+(seeded/C12-seed3, `t2.push_back( r.second.indz1 )`, breaks `sites_table` and `t2Of_def`). -/
+
+/-- the table as the code has it: `t1` reads the epoch-1 members, `t2` the epoch-2 members, in the order x, y | z,
+    each block guarded by the x (resp. z) index of BOTH epochs -/
+theorem sites_table :
+    Gama.Gen.DeformSites.blocks =
+      [⟨[⟨.ind, .x, 1⟩, ⟨.ind, .x, 2⟩],
+        [⟨1, ⟨.ind, .x, 1⟩⟩, ⟨1, ⟨.ind, .y, 1⟩⟩, ⟨2, ⟨.ind, .x, 2⟩⟩, ⟨2, ⟨.ind, .y, 2⟩⟩]⟩,
+       ⟨[⟨.ind, .z, 1⟩, ⟨.ind, .z, 2⟩],
+        [⟨1, ⟨.ind, .z, 1⟩⟩, ⟨2, ⟨.ind, .z, 2⟩⟩]⟩] := by decide
+
+omit [LinearOrder ι] in
+/-- loop 1 writes the six epoch-1 members from the same-named fields of the point -/
+theorem put1_def (p : APoint ι K) (o : Option (Rec12 K)) :
+    put1 p o = { (o.getD Rec12.zero) with indx1 := p.indx, x1 := p.x, indy1 := p.indy, y1 := p.y,
+                                          indz1 := p.indz, z1 := p.z } := rfl
+
+omit [LinearOrder ι] in
+theorem put2_def (p : APoint ι K) (o : Option (Rec12 K)) :
+    put2 p o = { (o.getD Rec12.zero) with indx2 := p.indx, x2 := p.x, indy2 := p.indy, y2 := p.y,
+                                          indz2 := p.indz, z2 := p.z } := rfl
+
+omit [LinearOrder ι] [Zero K] in
+theorem t1Of_def (r : Rec12 K) :
+    t1Of r = (if r.indx1 ≠ 0 ∧ r.indx2 ≠ 0 then [r.indx1, r.indy1] else []) ++
+             (if r.indz1 ≠ 0 ∧ r.indz2 ≠ 0 then [r.indz1] else []) := by
+  simp only [t1Of, tOf, tOfWith, sites_table]
+  by_cases a : r.indx1 = 0 <;> by_cases b : r.indx2 = 0 <;> by_cases c : r.indz1 = 0 <;>
+    by_cases d : r.indz2 = 0 <;> simp [Rec12.ind, a, b, c, d]
+
+omit [LinearOrder ι] [Zero K] in
+theorem t2Of_def (r : Rec12 K) :
+    t2Of r = (if r.indx1 ≠ 0 ∧ r.indx2 ≠ 0 then [r.indx2, r.indy2] else []) ++
+             (if r.indz1 ≠ 0 ∧ r.indz2 ≠ 0 then [r.indz2] else []) := by
+  simp only [t2Of, tOf, tOfWith, sites_table]
+  by_cases a : r.indx1 = 0 <;> by_cases b : r.indx2 = 0 <;> by_cases c : r.indz1 = 0 <;>
+    by_cases d : r.indz2 = 0 <;> simp [Rec12.ind, a, b, c, d]
+
 /-- the data of the last point of `pts` with id `k` (`d0` when there is none) -/
 def lastData (k : ι) (d0 : Half K) (pts : List (APoint ι K)) : Half K :=
   pts.foldl (fun d p => if p.id = k then halfOf p else d) d0
@@ -634,6 +678,15 @@ theorem lastData_perm {k : ι} (d0 : Half K) {pts pts' : List (APoint ι K)}
   · rw [lastData_of_not_mem d0 (fun p hp1 hk => hex ⟨p, hp1, hk⟩),
       lastData_of_not_mem d0 (fun p hp1 hk => hex ⟨p, hp.mem_iff.2 hp1, hk⟩)]
 
+theorem part1_put1 (p : APoint ι K) (o : Option (Rec12 K)) : part1 (put1 p o) = halfOf p := by
+  rw [put1_def]; rfl
+theorem part2_put1 (p : APoint ι K) (o : Option (Rec12 K)) : part2 (put1 p o) = part2 (o.getD Rec12.zero) := by
+  rw [put1_def]; rfl
+theorem part2_put2 (p : APoint ι K) (o : Option (Rec12 K)) : part2 (put2 p o) = halfOf p := by
+  rw [put2_def]; rfl
+theorem part1_put2 (p : APoint ι K) (o : Option (Rec12 K)) : part1 (put2 p o) = part1 (o.getD Rec12.zero) := by
+  rw [put2_def]; rfl
+
 theorem foldOpt_put1_parts (k : ι) (pts : List (APoint ι K)) (o : Option (Rec12 K)) :
     part1 ((foldOpt (fun p : APoint ι K => p.id) put1 k o pts).getD Rec12.zero)
         = lastData k (part1 (o.getD Rec12.zero)) pts ∧
@@ -646,7 +699,9 @@ theorem foldOpt_put1_parts (k : ι) (pts : List (APoint ι K)) (o : Option (Rec1
     have := ih (if p.id = k then some (put1 p o) else o)
     simp only [foldOpt, lastData] at this
     by_cases hk : p.id = k
-    · rw [if_pos hk] at this ⊢; rw [if_pos hk]; exact this
+    · rw [if_pos hk] at this ⊢; rw [if_pos hk]
+      simp only [Option.getD_some, part1_put1, part2_put1] at this
+      exact this
     · rw [if_neg hk] at this ⊢; rw [if_neg hk]; exact this
 
 theorem foldOpt_put2_parts (k : ι) (pts : List (APoint ι K)) (o : Option (Rec12 K)) :
@@ -661,7 +716,9 @@ theorem foldOpt_put2_parts (k : ι) (pts : List (APoint ι K)) (o : Option (Rec1
     have := ih (if p.id = k then some (put2 p o) else o)
     simp only [foldOpt, lastData] at this
     by_cases hk : p.id = k
-    · rw [if_pos hk] at this ⊢; rw [if_pos hk]; exact this
+    · rw [if_pos hk] at this ⊢; rw [if_pos hk]
+      simp only [Option.getD_some, part1_put2, part2_put2] at this
+      exact this
     · rw [if_neg hk] at this ⊢; rw [if_neg hk]; exact this
 
 theorem kSorted_adjrec12 (e1 e2 : List (APoint ι K)) : KSorted (adjrec12 e1 e2) :=
@@ -755,7 +812,7 @@ theorem dim_cases (r : Rec12 K) :
     ((r.indx1 ≠ 0 ∧ r.indx2 ≠ 0) ∧ (r.indz1 ≠ 0 ∧ r.indz2 ≠ 0) ∧ r.dim = 3 ∧
         t1Of r = [r.indx1, r.indy1, r.indz1] ∧ t2Of r = [r.indx2, r.indy2, r.indz2]) := by
   by_cases a : r.indx1 = 0 <;> by_cases b : r.indx2 = 0 <;> by_cases c : r.indz1 = 0 <;>
-    by_cases d : r.indz2 = 0 <;> simp [Rec12.dim, t1Of, t2Of, a, b, c, d]
+    by_cases d : r.indz2 = 0 <;> simp [Rec12.dim, t1Of_def, t2Of_def, a, b, c, d]
 
 omit [LinearOrder ι] [Zero K] in
 theorem t1Of_length (r : Rec12 K) : (t1Of r).length = r.dim := by
@@ -1074,7 +1131,7 @@ theorem t1Of_eq_t2Of {r : Rec12 K} (h : part1 r = part2 r) : t1Of r = t2Of r := 
   have a : r.indx1 = r.indx2 := congrArg Half.ix h
   have b : r.indy1 = r.indy2 := congrArg Half.iy h
   have c : r.indz1 = r.indz2 := congrArg Half.iz h
-  simp [t1Of, t2Of, a, b, c]
+  simp [t1Of_def, t2Of_def, a, b, c]
 
 omit [LinearOrder ι] [Field K] in
 theorem t1List_eq_t2List {m : List (ι × Rec12 K)} (h : ∀ a ∈ m, part1 a.2 = part2 a.2) :
@@ -1119,18 +1176,18 @@ theorem self_compared {e : List (APoint ι K)} (hnd : (e.map (·.id)).Nodup) (k 
     obtain ⟨_, hrec⟩ := (mem_adjrec12 e e id r).1 ha
     rcases lastData_cases id zHalf e with ⟨hz1, _⟩ | ⟨p, hp, _, hp1⟩
     · rw [hz1] at hrec; subst hrec
-      simp [t1Of, mkRec, zHalf] at hk
+      simp [t1Of_def, mkRec, zHalf] at hk
     · rw [hp1] at hrec; subst hrec
       refine ⟨p, hp, ?_⟩
       by_cases hx : p.indx = 0 <;> by_cases hz : p.indz = 0 <;>
-        simp [t1Of, mkRec, halfOf, hx, hz] at hk ⊢ <;> tauto
+        simp [t1Of_def, mkRec, halfOf, hx, hz] at hk ⊢ <;> tauto
   · rintro ⟨p, hp, hk⟩
     refine ⟨(p.id, mkRec (halfOf p) (halfOf p)), ?_, ?_⟩
     · rw [mem_adjrec12]
       refine ⟨Or.inl ⟨p, hp, rfl⟩, ?_⟩
       rw [lastData_of_mem _ hnd hp rfl]
     · by_cases hx : p.indx = 0 <;> by_cases hz : p.indz = 0 <;>
-        simp [t1Of, mkRec, halfOf, hx, hz] at hk ⊢ <;> tauto
+        simp [t1Of_def, mkRec, halfOf, hx, hz] at hk ⊢ <;> tauto
 
 end Self
 
